@@ -11,6 +11,16 @@ STREAM = "sos_filesystem::formats::stream::FormatStream::<T, R>::"
 _TABLE = [
     ("<sos_core::account::AccountId as core::str::traits::FromStr>::from_str", "may-panic", "index:index", 1,
      "`&s[2..]` runs only after `s.starts_with(\"0x\")`: length >= 2 and offset 2 is a char boundary (ASCII prefix)"),
+    ("sos_protocol::bindings::relay::RelayPacket::decode_split", "may-panic", "index:index", 3,
+     "`packet[0..2]` inside `if packet.len() > 2`; `packet[2..boundary]` and `packet[boundary..]` inside `if packet.len() > key_length + 2` with boundary = key_length + 2"),
+    ("sos_protocol::bindings::relay::RelayPacket::decode_split", "unwrap", "unwrap", 1,
+     "`<[u8; 2]>::try_from(&packet[0..2])`: the slice has exactly size_of::<u16>() bytes"),
+    ("sos_protocol::bindings::relay::RelayPacket::decode_split", "assert", "Overflow:Add:usize", 2,
+     "`key_length as usize + 2` with key_length read from a u16"),
+    ("sos_protocol::bindings::relay::RelayPacket::decode_split", "assert", "Overflow:Sub:usize", 1,
+     "`packet.len() - boundary` inside `if packet.len() > boundary`"),
+    ("sos_vault::vault::Header::read_content_offset_stream", "assert", "Overflow:Add:u64", 2,
+     "identity length (4) + 4 + a u32 widened to u64"),
     (FS_LOG + "diff_records", "may-panic", "vec-position:insert", 1,
      "`events.insert(0, _)`: index 0 is valid for every Vec"),
     (FS_LOG + "rewind", "assert", "Overflow:Sub:usize", 1,
